@@ -125,7 +125,7 @@ def _flagged(w, ev, slot, name, do, expected, oracle, approx=None,
             if not refuse:
                 w.fail(oracle + '.raised', '%s(inplace=False) raised %r'
                        % (name, res))
-            w.expect_unchanged(slot, 'refused.changed',
+            w.expect_unchanged(slot, oracle + '.refused_changed',
                                '%s refused but receiver changed' % name)
             out.append('refused')
         else:
@@ -163,7 +163,7 @@ def _flagged(w, ev, slot, name, do, expected, oracle, approx=None,
             if not refuse:
                 w.fail(oracle + '.raised', '%s(inplace=True) raised %r'
                        % (name, res))
-            w.expect_unchanged(slot, 'refused.changed',
+            w.expect_unchanged(slot, oracle + '.refused_changed',
                                '%s refused but receiver changed' % name)
             out.append('refused')
         else:
@@ -214,7 +214,7 @@ def _newtable(w, ev, slot, name, do, expected, oracle, args=(), adopt=None,
         if not refuse:
             w.fail(oracle + '.raised', '%s raised %r' % (name, res))
         for s in others:
-            w.expect_unchanged(s, 'refused.changed',
+            w.expect_unchanged(s, oracle + '.refused_changed',
                                '%s refused but an input changed' % name)
         return name + ':refused'
     if refuse:
